@@ -64,6 +64,7 @@ func c20(r *core.Run) {
 		r.Check("C20.Y1", core.Key("C20.Y1", fn, "symmetric operands"), fn.Pos(), symOK,
 			"both inputs are used only via len() and index-wise XOR with each other", why)
 	}
+	c20Distance(r)
 }
 
 func describeRet(v ssa.Value) string {
